@@ -150,7 +150,7 @@ impl<L: Localize> OpeningHours<L> {
         }
 
         let mut prev_match = false;
-        let mut prev_eval = None;
+        let mut prev_eval: Option<Schedule> = None;
 
         for rules_seq in &self.expr.rules {
             let curr_match = rules_seq.day_selector.filter(date, &self.ctx);
@@ -163,7 +163,12 @@ impl<L: Localize> OpeningHours<L> {
                     if curr_match {
                         curr_eval
                     } else {
-                        prev_eval.or(curr_eval)
+                        // The rule does not apply to this day, but it may still cover the
+                        // beginning of the day if it applied to the previous one.
+                        match (prev_eval, curr_eval) {
+                            (Some(prev), Some(curr)) => Some(prev.addition(curr)),
+                            (prev, curr) => prev.or(curr),
+                        }
                     },
                 ),
                 (RuleOperator::Additional, _) | (RuleOperator::Normal, RuleKind::Closed) => (
